@@ -61,6 +61,20 @@ func firstWord(out string) string {
 
 // solveFile races the back ends on one query. needAgree>1 asks for that many
 // back ends to answer unsat before unsat is reported (thorough tier).
+// quickBackends: the back ends raced in the quick tier (z3 4.8.12 almost never answers first and costs a core).
+func activeBackends(needAgree int) []backend {
+	if needAgree > 1 {
+		return backends
+	}
+	var out []backend
+	for _, b := range backends {
+		if b.name != "z3-4.8.12" {
+			out = append(out, b)
+		}
+	}
+	return out
+}
+
 func solveFile(file string, timeoutS int, seed int, needAgree int) SolveResult {
 	ctx, cancel := context.WithTimeout(context.Background(), time.Duration(timeoutS+2)*time.Second)
 	defer cancel()
@@ -70,7 +84,7 @@ func solveFile(file string, timeoutS int, seed int, needAgree int) SolveResult {
 	}
 	ch := make(chan one, len(backends))
 	var wg sync.WaitGroup
-	for _, b := range backends {
+	for _, b := range activeBackends(needAgree) {
 		wg.Add(1)
 		go func(b backend) {
 			defer wg.Done()
